@@ -223,3 +223,54 @@ Lemma reach_reported_then_missing cp ops0 o k x ops :
   forallb (fun o => negb (is_put_of k o)) ops = true ->
   snd (step (fst (run (fst (step c o)) ops)) (Get k)) = OVal None [].
 Proof. intros Hcp Hwf0 Hwf Hwfs c. apply reported_then_missing; auto. now apply invariant_all_histories. Qed.
+
+(* ------------------------------------------------------------------ *)
+(* absence under concurrency, through the linearization *)
+
+Lemma forallb_nth_log (p : op -> bool) ops (log : list (nat * obs)) :
+  forallb p ops = true -> p Len = true ->
+  forallb p (map (fun q => nth (fst q) ops Len) log) = true.
+Proof.
+  intros Hp Hl. apply forallb_forall. intros o Hin.
+  apply in_map_iff in Hin as [q [<- _]].
+  destruct (nth_in_or_default (fst q) ops Len) as [Hi|He]; [|rewrite He; exact Hl].
+  rewrite forallb_forall in Hp. auto.
+Qed.
+
+(* under EVERY schedule of any group of concurrent callers none of which
+   puts k, a key that is not resident stays not found *)
+Lemma absent_all_schedules c k ops sch c' ts' :
+  inv c -> ~ In k (keys (ll c)) -> Forall wf_op ops ->
+  forallb conc_op ops = true ->
+  forallb (fun o => negb (is_put_of k o)) ops = true ->
+  run_sched c (map spawn ops) sch = Some (c', ts') ->
+  snd (step c' (Get k)) = OVal None [] /\ ~ In k (keys (ll c')).
+Proof.
+  intros Hi Ha Hwf Hc Hnp Hrun.
+  destruct (linearizable c ops sch c' ts' Hc Hrun) as [log [_ [-> _]]].
+  set (lops := map (fun p => nth (fst p) ops Len) log).
+  assert (Forall wf_op lops) as Hwfl.
+  { apply Forall_forall. intros o Hin. apply in_map_iff in Hin as [q [<- _]].
+    destruct (nth_in_or_default (fst q) ops Len) as [Hin|He]; [|rewrite He; exact I].
+    rewrite Forall_forall in Hwf. auto. }
+  assert (forallb (fun o => negb (is_put_of k o)) lops = true) as Hnpl
+    by (apply forallb_nth_log; auto).
+  destruct (run_sim lops _ _ (R_abs c Hi) Hwfl) as [HR2 _].
+  assert (absent (rl (fst (ref_run (abs_state c) lops))) k) as Ha2.
+  { apply ref_run_absent; auto. unfold absent. simpl. now rewrite keys_abs. }
+  split; [eapply get_absent; eauto|].
+  destruct HR2 as [_ [_ [_ Hl]]]. unfold absent in Ha2. rewrite Hl, keys_abs in Ha2. exact Ha2.
+Qed.
+
+Lemma reach_absent_all_schedules cp ops0 k ops sch c' ts' :
+  0 <= cp < two64 -> Forall wf_op ops0 -> Forall wf_op ops ->
+  forallb conc_op ops = true ->
+  forallb (fun o => negb (is_put_of k o)) ops = true ->
+  let c := fst (run (empty cp) ops0) in
+  ~ In k (keys (ll c)) ->
+  run_sched c (map spawn ops) sch = Some (c', ts') ->
+  snd (step c' (Get k)) = OVal None [] /\ ~ In k (keys (ll c')).
+Proof.
+  intros Hcp Hwf0 Hwf Hc Hnp c Ha Hrun.
+  eapply absent_all_schedules; eauto. now apply invariant_all_histories.
+Qed.
